@@ -184,7 +184,24 @@ static void check_detector(const arr_cmplx& h, const char* pname, double thr, in
     //run the detector frame by frame; only the first report is judged
     int rep_frame = -1;
     dl::PreambleDetector::Result rep;
+    //in half of the streams one call with a wrong frame length is made somewhere before the preamble completes; it is rejected with
+    //an exception and is not part of the stream, so nothing that follows may change
+    const int reject_before = (r.below(2) == 0 && F > 1) ? int(r.below(uint64_t(std::max(1, pend / F + 1)))) : -1;
     for (int f = 0; f < nframes && rep_frame < 0; ++f) {
+        if (f == reject_before) {
+            const int badlen = (r.below(3) == 0) ? 1 : ((r.coin() ? F - 1 : F + 1));
+            arr_cmplx junk(badlen);
+            for (int i = 0; i < badlen; ++i) {
+                junk[i] = cmplx_t{A * r.gauss(), A * r.gauss()};
+            }
+            try {
+                (void)det.process(junk);
+                vh::skip("detector_accepted_a_frame_of_another_length");
+                return;
+            } catch (const std::exception&) {
+                vh::obs_add("detector_rejected_calls_inside_streams");
+            }
+        }
         arr_cmplx fr(F);
         for (int i = 0; i < F; ++i) {
             fr[i] = x[f * F + i];
